@@ -99,6 +99,10 @@ def p_from_lines(t):
         ids = set(id(l) for l in lines)
         g1 = list(deb822.get_paragraphs_as_field_groups_from_lines(lines))
         r1 = _d822.groups_t(g1)
+        for g in g1:
+            for f in g:
+                if f.lines and (f.start_line != f.lines[0].number or f.end_line != f.lines[-1].number or f.text != '\n'.join(l.value for l in f.lines)):
+                    return 'field %r reports start %r, end %r and text %r; its lines are %r' % (f.name, f.start_line, f.end_line, f.text, [(l.number, l.value) for l in f.lines])
         if [(l.number, l.value) for l in lines] != snap:
             k = [i for i, l in enumerate(lines) if (l.number, l.value) != snap[i]][0] if len(lines) == len(snap) else -1
             return 'parsing a list of numbered lines changes the list: line %r is now %r' % (snap[k] if k >= 0 else None, (lines[k].number, lines[k].value) if k >= 0 else len(lines))
